@@ -295,6 +295,25 @@ impl Ctx {
         if self.rep.samples.len() < 6 && catches >= 1 && self.rep.evaluations % 97 == 3 {
             self.rep.sample(json!({"source": src, "request": key, "impl": real, "model": model}));
         }
+        if v == Verdict::Agree
+            && self.rep.evaluations % 4 == 0
+            && (feats.kinds.contains("typed-catch") || feats.kinds.contains("catch:map-pattern"))
+        {
+            // catch selection is control flow: the same program compiled with enable_type_checks(false)
+            // must behave identically (the mini language has no other type hints)
+            let (so2, r2) = run_real_opts(&src, false);
+            let real2 = canon_real(&so2, &r2);
+            self.rep.bump("rerun_with_type_checks_disabled");
+            if real2 != real {
+                self.fails += 1;
+                self.rep.violation(
+                    "D",
+                    "C04:catch-selection-depends-on-enable_type_checks",
+                    json!({"program": key, "source": src, "impl": real2, "model": model, "impl_with_type_checks": real,
+                           "note": "with enable_type_checks(false) the error reaches a different handler / the run differs"}),
+                );
+            }
+        }
         match v {
             Verdict::Agree => {}
             Verdict::Differ => {
@@ -467,6 +486,10 @@ fn main() {
 
     // ---- 1d. (R) receiver state after a failed mutating library call
     run_recv_family(&mut cx, args.seed, args.thorough());
+
+    // ---- 1e. (L) one adaptor instance through many caught callback errors; (G) catch selection grid
+    run_long_lived(&mut cx);
+    run_catch_grid(&mut cx);
 
     // ---- 1c. (I) state after a failed import
     run_import_family(&mut cx);
@@ -1913,6 +1936,220 @@ fn run_recv_family(cx: &mut Ctx, seed: u64, thorough: bool) {
         cx.fails += 1;
         cx.rep.violation("K", "K:C04:receiver-state-coverage", json!({"rows_never_fired": silent, "note": "no case reached the fault point of these rows (templates need adjusting)"}));
     }
+}
+
+// ------------------------------------------------------------------------------------ (L) long-lived adaptor instance
+//
+// "The handler receives the error that was raised" — at EVERY one of many caught callback errors on
+// ONE adaptor instance (each instance owns a spawned VM; whatever a failed callback leaves behind on
+// it accumulates). For every callback position of the sweep table (TK::Base rows) one instance is
+// advanced 260 times with `try it_.next() catch`, the callback raising every time.
+
+const LONG_LIVED: &[(&str, &str, FRole)] = &[
+    ("each", "(1..=400).each(ft_)", FRole::Id),
+    ("each", "(1..=400).each(ft_).enumerate()", FRole::Id),
+    ("each", "(1..=400).zip((1..=400).each(ft_))", FRole::Id),
+    ("keep", "(1..=400).keep(ft_)", FRole::True),
+    ("take", "(1..=400).take(ft_)", FRole::True),
+    ("intersperse", "(1..=400).intersperse(ft_)", FRole::Sep),
+    ("generate", "iterator.generate(ft_)", FRole::Gen),
+    ("generate", "iterator.generate(ft_, 400)", FRole::Gen),
+];
+
+fn run_long_lived(cx: &mut Ctx) {
+    // every callback position of the sweep table has a long-lived row
+    let base_fns: std::collections::BTreeSet<&str> = TPLS.iter().filter(|t| matches!(t.kind, TK::Base(_))).map(|t| t.f).collect();
+    let have: std::collections::BTreeSet<&str> = LONG_LIVED.iter().map(|x| x.0).collect();
+    let missing: Vec<&&str> = base_fns.iter().filter(|f| !have.contains(**f)).collect();
+    if !missing.is_empty() {
+        cx.fails += 1;
+        cx.rep.violation("K", "K:C04:long-lived-table", json!({"missing": missing, "note": "a callback adaptor of the sweep table has no long-lived-instance row"}));
+    }
+    let faults = [FaultV::Str, FaultV::Num, FaultV::Obj, FaultV::RtIndex, FaultV::List];
+    let mut n = 0u64;
+    let mut fails = 0u64;
+    let mut sustained: std::collections::BTreeMap<&'static str, u64> = Default::default();
+    for (ri, (f, expr, role)) in LONG_LIVED.iter().enumerate() {
+        for (fi, fault) in faults.iter().enumerate() {
+            if (ri + fi) % 2 == 1 && fi > 1 {
+                continue;
+            }
+            // every second call raises (the others succeed), or every call raises
+            for every in [1usize, 2] {
+                let (params, ret) = match role {
+                    FRole::Gen => ("||", "1"),
+                    FRole::Sep => ("||", "0"),
+                    FRole::True => ("|x|", "true"),
+                    _ => ("|x|", "x"),
+                };
+                let mut s = String::from("nul_ = null\nk1_ = |a| a\nmkE_ = ||\n  @type: 'K0'\n  @display: || 'k0'\nhits_ = [0]\n");
+                s.push_str(&format!("ft_ = {}\n  hits_[0] += 1\n  if hits_[0] % {} == 0\n    {}\n  {}\n", params, every, fault.stmt(), ret));
+                s.push_str(&format!("it_ = {}\nn_ = 0\nbad_ = 0\nfor i_ in 0..260\n  try\n    z_ = it_.next()\n  catch e_\n    n_ += 1\n    if '{{type e_}} {{e_}}' != '{}'\n      bad_ += 1\n      if bad_ == 1\n        print '#BAD at error {{n_}}: {{type e_}} {{e_}}'\nprint '#N {{n_}} {{bad_}}'\n", expr, fault.expected().replace('\'', "\\'")));
+                n += 1;
+                let (so, r) = run_real(&s);
+                let key = format!("long-lived {} fault={:?} every={}", expr, fault, every);
+                let lines: Vec<&str> = so.split('\n').filter(|l| !l.is_empty()).collect();
+                let last = lines.last().copied().unwrap_or("");
+                let caught: u64 = last.strip_prefix("#N ").and_then(|x| x.split(' ').next()).and_then(|x| x.parse().ok()).unwrap_or(0);
+                cx.rep.case(&key, caught >= 100);
+                let bad = lines.iter().any(|l| l.starts_with("#BAD")) || !last.starts_with("#N ") || !last.ends_with(" 0") || !matches!(r, Ok(Ok(_)));
+                if caught >= 100 {
+                    *sustained.entry(f).or_insert(0) += 1;
+                }
+                if bad {
+                    fails += 1;
+                    cx.fails += 1;
+                    if fails <= 4 {
+                        cx.rep.violation(
+                            "D",
+                            "C04:handler-receives-the-raised-error:long-lived-adaptor",
+                            json!({"case": key, "source": s, "impl": format!("{} || {:?}", lines.join(" | "), r),
+                                   "expected": format!("every caught value is `{}`: no #BAD line, `#N <count> 0`", fault.expected()),
+                                   "note": "one iterator adaptor instance advanced through many caught callback errors: at some iteration the handler received a different error than the one the callback raised"}),
+                        );
+                    }
+                }
+            }
+        }
+    }
+    let silent: Vec<&str> = have.iter().filter(|f| sustained.get(**f).copied().unwrap_or(0) == 0).copied().collect();
+    cx.rep.extra.insert("long_lived_adaptor_family".into(), json!({"cases": n, "failures": fails, "sustained_100_errors_per_function": sustained, "never_sustained": silent}));
+    if !silent.is_empty() {
+        cx.fails += 1;
+        cx.rep.violation("K", "K:C04:long-lived-coverage", json!({"never_sustained": silent, "note": "no long-lived case of these adaptors got through 100 caught errors on one instance"}));
+    }
+}
+
+// ------------------------------------------------------------------------------------ (G) catch selection grid, type checks on/off
+//
+// Catch selection is control flow, not an assertion: which catch block accepts a thrown value must
+// be the same with `enable_type_checks(false)`. Thrown values × (catch argument, catch argument,
+// final untyped catch), every argument form incl. map patterns with a pattern-level or entry-level
+// type hint; the expected handler follows from the forms (first accepting one).
+
+#[derive(Clone, Copy)]
+struct GridVal {
+    src: &'static str,
+    ty: &'static str,
+    /// data entries (key, type of value)
+    entries: &'static [(&'static str, &'static str)],
+    map_like: bool,
+}
+
+const GRID_VALS: &[GridVal] = &[
+    GridVal { src: "'str'", ty: "String", entries: &[], map_like: false },
+    GridVal { src: "42", ty: "Number", entries: &[], map_like: false },
+    GridVal { src: "null", ty: "Null", entries: &[], map_like: false },
+    GridVal { src: "true", ty: "Bool", entries: &[], map_like: false },
+    GridVal { src: "[1]", ty: "List", entries: &[], map_like: false },
+    GridVal { src: "(1, 2)", ty: "Tuple", entries: &[], map_like: false },
+    GridVal { src: "{k0: 1}", ty: "Map", entries: &[("k0", "Number")], map_like: true },
+    GridVal { src: "{k0: 'x'}", ty: "Map", entries: &[("k0", "String")], map_like: true },
+    GridVal { src: "{k1: 2, k0: 1}", ty: "Map", entries: &[("k1", "Number"), ("k0", "Number")], map_like: true },
+    GridVal { src: "{k0: 1, @type: 'K0'}", ty: "K0", entries: &[("k0", "Number")], map_like: true },
+    GridVal { src: "{k0: 'x', k1: 1, @type: 'K1'}", ty: "K1", entries: &[("k0", "String"), ("k1", "Number")], map_like: true },
+];
+
+#[derive(Clone, Copy)]
+struct GridArg {
+    src: &'static str,
+    ty: Option<&'static str>,
+    /// map pattern: (key, entry type hint)
+    keys: Option<&'static [(&'static str, Option<&'static str>)]>,
+}
+
+const GRID_ARGS: &[GridArg] = &[
+    GridArg { src: "e_: String", ty: Some("String"), keys: None },
+    GridArg { src: "e_: Number", ty: Some("Number"), keys: None },
+    GridArg { src: "e_: Map", ty: Some("Map"), keys: None },
+    GridArg { src: "e_: K0", ty: Some("K0"), keys: None },
+    GridArg { src: "_: Bool", ty: Some("Bool"), keys: None },
+    GridArg { src: "{k0 as a_}", ty: None, keys: Some(&[("k0", None)]) },
+    GridArg { src: "{k1 as a_}", ty: None, keys: Some(&[("k1", None)]) },
+    GridArg { src: "{k0 as a_}: Map", ty: Some("Map"), keys: Some(&[("k0", None)]) },
+    GridArg { src: "{k0 as a_}: K0", ty: Some("K0"), keys: Some(&[("k0", None)]) },
+    GridArg { src: "{k0 as a_}: K1", ty: Some("K1"), keys: Some(&[("k0", None)]) },
+    GridArg { src: "{k0 as a_: Number}", ty: None, keys: Some(&[("k0", Some("Number"))]) },
+    GridArg { src: "{k0 as a_: String, k1 as b_}", ty: None, keys: Some(&[("k0", Some("String")), ("k1", None)]) },
+];
+
+fn grid_accepts(a: &GridArg, v: &GridVal) -> bool {
+    if let Some(t) = a.ty {
+        if t != v.ty {
+            return false;
+        }
+    }
+    match a.keys {
+        None => true,
+        Some(ks) => {
+            v.map_like
+                && ks.iter().all(|(k, hint)| match v.entries.iter().find(|e| e.0 == *k) {
+                    None => false,
+                    Some((_, vt)) => hint.is_none_or(|h| h == *vt),
+                })
+        }
+    }
+}
+
+fn run_real_opts(src: &str, type_checks: bool) -> (String, Result<Result<String, String>, String>) {
+    let so = Capture::new();
+    let se = Capture::new();
+    let mut koto = Koto::with_settings(
+        KotoSettings::default().with_stdout(so.clone()).with_stderr(se.clone()).with_execution_limit(std::time::Duration::from_secs(3)),
+    );
+    let r = kvh::catch(|| {
+        let args = koto::CompileArgs {
+            script: src,
+            script_path: None,
+            compiler_settings: koto::bytecode::CompilerSettings { enable_type_checks: type_checks, ..Default::default() },
+        };
+        match koto.compile_and_run(args) {
+            Ok(v) => Ok(value_text(&v)),
+            Err(e) => Err(e.to_string()),
+        }
+    });
+    (so.text(), r)
+}
+
+fn run_catch_grid(cx: &mut Ctx) {
+    let mut n = 0u64;
+    let mut fails = 0u64;
+    for (i1, a1) in GRID_ARGS.iter().enumerate() {
+        for (i2, a2) in GRID_ARGS.iter().enumerate() {
+            // one script per chain, all thrown values in turn (in a function, so that the pattern
+            // variables are fresh each time)
+            let mut s = String::from("sel_ = |v_|\n  try\n    throw v_\n");
+            s.push_str(&format!("  catch {}\n    '#H0'\n  catch {}\n    '#H1'\n  catch e_\n    '#H2'\n", a1.src, a2.src));
+            let mut exp = vec![];
+            for v in GRID_VALS {
+                s.push_str(&format!("print sel_({})\n", v.src));
+                exp.push(if grid_accepts(a1, v) { "#H0" } else if grid_accepts(a2, v) { "#H1" } else { "#H2" });
+            }
+            for checks in [true, false] {
+                n += 1;
+                let (so, r) = run_real_opts(&s, checks);
+                let got: Vec<&str> = so.split('\n').filter(|l| !l.is_empty()).collect();
+                let key = format!("catch-grid a1={} a2={} type_checks={}", i1, i2, checks);
+                cx.rep.case(&key, true);
+                cx.rep.bump(&format!("catch_grid:type_checks={}", checks));
+                if got != exp || !matches!(r, Ok(Ok(_))) {
+                    fails += 1;
+                    cx.fails += 1;
+                    if fails <= 4 {
+                        cx.rep.violation(
+                            "D",
+                            "C04:catch-selection-grid",
+                            json!({"case": key, "catch_arguments": [a1.src, a2.src], "enable_type_checks": checks, "source": s,
+                                   "impl": format!("{} || {:?}", got.join(" "), r), "expected": exp.join(" "),
+                                   "thrown_values": GRID_VALS.iter().map(|v| v.src).collect::<Vec<_>>(),
+                                   "note": "the error did not reach the first catch block whose argument accepts it (catch selection is control flow: it must not depend on enable_type_checks)"}),
+                        );
+                    }
+                }
+            }
+        }
+    }
+    cx.rep.extra.insert("catch_selection_grid".into(), json!({"runs": n, "failures": fails, "chains": GRID_ARGS.len() * GRID_ARGS.len(), "thrown_values": GRID_VALS.len()}));
 }
 
 // ------------------------------------------------------------------------------------ AST
